@@ -27,6 +27,7 @@ structure St where
   w : World := World.init 1
   clients : List (String × CState) := []
   auth : AuthCfg := .harness
+  muted : List String := []    -- connections on which every write of the broker fails (its state is as if they succeeded)
 
 def sortStrs (l : List String) : List String := (l.toArray.qsort (· < ·)).toList
 def b2i (b : Bool) : Nat := if b then 1 else 0
@@ -95,7 +96,7 @@ def observe (st : St) (res : String) : St × String :=
   let (clients, parts) := names.foldl (fun (acc : List (String × CState) × List String) name =>
     let (cl, parts) := acc
     let cs := ((cl.find? (fun e => e.1 == name)).map (·.2)).getD {}
-    let pkts := (st.w.out.filter (fun e => e.1 == name)).map (·.2)
+    let pkts := (st.w.out.filter (fun e => e.1 == name && (!st.muted.contains name || e.2 == .closed))).map (·.2)
     let (cs', s) := renderClient name cs pkts
     (cl.map (fun e => if e.1 == name then (name, cs') else e), if s = "" then parts else parts ++ [s])) (st.clients, [])
   ({ st with w := { st.w with out := [] }, clients := clients }, if parts.isEmpty then res else res ++ " | " ++ " ".intercalate parts)
@@ -141,6 +142,9 @@ def step (st : St) (line : String) : St × String :=
   | ["settlems", _] => (st, "ok")
   | ["reset", n, _] => ({ w := World.init n.toNat! }, "ok")
   | ["realtime", _] => (st, "ok")
+  | ["mute", c, v] =>
+    if !known st c then (st, "noclient") else
+    ({ st with muted := if v = "1" then c :: st.muted else st.muted.filter (· != c) }, "ok")
   | ["burst", c, t, q, first, n] =>
     if !known st c then (st, "noclient") else
     if !writable st c then observe st "write-failed" else
